@@ -19,12 +19,13 @@ def D : Decoders := ⟨fun _ => true, fun _ => true, fun _ => true⟩
 def srv : Server := ⟨1, 3600⟩
 def W : World :=
   { cursors := [cm] ++ World.empty.cursors, calls := km :: World.empty.calls,
-    caches := (setCache World.empty 0 ((World.empty.caches 0).put km.callId (cacheIdent km.who) ⟨km.method, km.body⟩)).caches }
+    caches := (setCache World.empty 0 ((World.empty.caches 0).put km.callId (cacheIdent km.who)
+      (cacheDeadline srv.ttl km.t 100, ⟨km.method, km.body⟩))).caches }
 /-- `gena`'s tokens, byte for byte, posted to `/genb/exchange` -/
 def req : Req := ⟨.anonymous, "genb".toList, 150, [65], some [66]⟩
 
 theorem reachable : Reachable pinned E z D srv [] W := by
-  refine Reachable.step Reachable.start (Step.init World.empty 0 km (some (100, [9, 9], 1)) ?_ ?_ ?_)
+  refine Reachable.step Reachable.start (Step.init World.empty 0 km (some (100, [9, 9], 1)) 100 ?_ ?_ ?_)
   · have f : ∀ b : Bytes, b.length < 10 → fitsLen b := fun b h => by unfold fitsLen; tok_consts; omega
     refine ⟨by decide, by decide, ⟨f _ (by decide), f _ (by decide), f _ (by decide), f _ (by decide), f _ (by decide)⟩, trivial, ?_⟩
     exact nulFree_of_chars (by decide)
@@ -37,9 +38,9 @@ theorem cross_method_accepted :
     (∃ effs acc, recover pinned E z D srv (W.caches 1) req = (effs, .ok acc) ∧ acc.hit = false) ∧
     cm.method ≠ req.method := by
   refine ⟨⟨_, _, (by decide : recover pinned E z D srv (W.caches 0) req
-      = ([.stateDecode, .bindCallState, .rehydrate], .ok ⟨[9, 9], List.replicate 16 7, ⟨"gena".toList, body⟩, true⟩)), rfl⟩,
+      = ([.stateDecode, .bindCallState, .rehydrate], .ok ⟨[9, 9], List.replicate 16 7, ⟨"gena".toList, body⟩, true, 0⟩)), rfl⟩,
     ⟨_, _, (by decide : recover pinned E z D srv (W.caches 1) req
-      = ([.cachePut, .stateDecode, .bindCallState, .rehydrate], .ok ⟨[9, 9], List.replicate 16 7, ⟨"genb".toList, body⟩, false⟩)), rfl⟩,
+      = ([.cachePut, .stateDecode, .bindCallState, .rehydrate], .ok ⟨[9, 9], List.replicate 16 7, ⟨"genb".toList, body⟩, false, 100⟩)), rfl⟩,
     by decide⟩
 
 end VgiVerif.C13.Findings
